@@ -200,6 +200,11 @@ Section Agree.
   Qed.
 End Agree.
 
+(** The same statement about the pinned DecodeConfig ([AlphaData == nil]). *)
+Definition pinned_config_agrees_statement {Pix : Type} (lossy_dec lossless_dec : list Z -> Res (Z * Z * Pix))
+           (alpha_dec : list Z -> Z -> Z -> Res Pix) : Prop :=
+  config_agrees_statement lossy_dec lossless_dec alpha_dec false.
+
 (** ** The pinned DecodeConfig is refuted by a zero-length ALPH chunk *)
 (** RIFF / VP8X (alpha flag, 1x1) / ALPH with an empty payload / VP8 key-frame header 1x1. *)
 Definition wit_empty_alph : list Z :=
@@ -223,9 +228,9 @@ Proof.
 Qed.
 
 Theorem zero_len_alph_refuted :
-  ~ config_agrees_statement hdr_lossy hdr_lossless any_alpha false.
+  ~ pinned_config_agrees_statement hdr_lossy hdr_lossless any_alpha.
 Proof.
-  intros H. specialize (H hdr_codec_ok false wit_empty_alph).
+  unfold pinned_config_agrees_statement. intros H. specialize (H hdr_codec_ok false wit_empty_alph).
   assert (Hp : exists r, parse_ex false wit_empty_alph = Ok (r, KStill)) by (eexists; vm_compute; reflexivity).
   destruct Hp as [r Hp].
   assert (Hd : exists img, decode_bytes hdr_lossy hdr_lossless any_alpha false wit_empty_alph = Ok img)
